@@ -72,6 +72,9 @@ ssize_t __wrap_read(int fd, void *b, size_t n){ if (fd < VFD0) return __real_rea
     size_t m = k->len - k->off; if (m > n) m = n; memcpy(b, k->data + k->off, m); k->off += m; k->readres += m; return m; }
 ssize_t __wrap_write(int fd, const void *b, size_t n){ if (fd < VFD0) return __real_write(fd, b, n);
     typeof(K[0]) *k = KK(fd); k->writes++;
+    /* capacity -2: the kernel takes the first piece offered in this pass whole and has no room for a second one (a wrapped
+       ring buffer is written in two pieces); the driver rewrites the recorded op to the equivalent byte count afterwards */
+    if (k->cap == -2) { if (k->writes > 1 && !k->blocking) { errno = EAGAIN; return -1; } memcpy(k->w + k->wlen, b, n); k->wlen += n; return n; }
     if (k->cap < 0) { if (fd >= DFD0) { memcpy(k->w + k->wlen, b, n); k->wlen += n; } k->werr = 1; errno = EPIPE; return -1; }
     size_t m = n;
     if (k->blocking) { if ((size_t)k->cap < n) { k->wblock = 1; k->cap = 0; } else k->cap -= n; }   /* capacity is per pass, a wrapped cbuf issues two calls */
@@ -130,6 +133,10 @@ static void dump(struct timeval *tv){
         printf("I dev %d acts", ix); { ListIterator i2 = list_iterator_create(dev->acts); Action *a; while ((a = list_next(i2))) printf(" %lx:%ld", (unsigned long)a, (long)a->time_stamp.tv_sec*1000000L + a->time_stamp.tv_usec); list_iterator_destroy(i2); } printf("\n");
         ix++; }
       list_iterator_destroy(di); }
+#ifdef __SANITIZE_ADDRESS__
+    { extern size_t __sanitizer_get_current_allocated_bytes(void);    /* harness-only line (not compared): live heap */
+      printf("I heap %zu\n", __sanitizer_get_current_allocated_bytes()); }
+#endif
     if (tv) { if (timerisset(tv)) printf("O tmo %ld\n", (long)tv->tv_sec*1000000L + tv->tv_usec); else printf("O tmo none\n"); }
 }
 
